@@ -35,7 +35,7 @@ type c16Scenario struct {
 	Producers   [][]c16Op  `json:"producers"`     // never call throttle()
 	Consumer    []c16Op    `json:"consumer"`      // repeated until the buffer is closed
 	FinishAtNs  int64      `json:"finish_at_ns"`  // <0: finish only after all scripts ended
-	DoneDelayNs int64      `json:"done_delay_ns"` // done is closed this long after finish (<0: this long before)
+	DoneDelayNs int64      `json:"done_delay_ns"` // done is closed this long after finish (<0: done at FinishAtNs, finish this long after it)
 }
 
 func (s *c16Scenario) SchedP() *core.Sched { return &s.Sched }
@@ -160,6 +160,12 @@ func genC16(seed uint64, tier string) *c16Scenario {
 		s.FinishAtNs = int64(core.Pick(r, 0, r.Intn(4), r.Intn(12), r.Intn(60))) * scale
 	}
 	s.DoneDelayNs = int64(r.Range(-3, 20)) * scale
+	if r.Chance(1, 5) {
+		// client style: the connection dies (done) and finish() comes much
+		// later, when the writer goroutine gets to exit - or never, if it was
+		// not started yet. Long enough for a judgement to land in between.
+		s.DoneDelayNs = -int64(r.Range(300, 3000)) * scale
+	}
 	return s
 }
 
@@ -545,7 +551,7 @@ func runC16(e *core.Env, s *c16Scenario) {
 				}
 			}
 			if s.DoneDelayNs < 0 {
-				if !sleep(max(0, s.FinishAtNs+s.DoneDelayNs)) {
+				if !sleep(s.FinishAtNs) {
 					return
 				}
 				w.closeDone("closer")
